@@ -184,9 +184,10 @@ Theorem C06_refs_local_same_var_partial : forall P w f name line col v o,
 Proof. exact (refs_local_same_var MRefs). Qed.
 Print Assumptions C06_refs_local_same_var_partial.
 
-(* the statement aimed at.  Proved below: tr_clean from Laid and classA_ok (C06_laid_position_clean) and decl_self_ok
-   for every chunk (Proofs/TraverseBindSpecDecls.v).  Missing: `Laid P -> decl_layout_ok`, and C05 (the position
-   resolver returns the declaration Lua binds the cursor's occurrence to; In o (bind_file P) for the cursor's o) *)
+(* the statement aimed at.  Proved below (C06_refs_local_laid_partial): the same with tb_shape and with the C05 facts
+   as hypotheses - o is an occurrence of the chunk spelled with the queried name (the occurrence under the cursor) and
+   the position resolver answers the declaration Lua binds o to.  All layout guards (tr_clean, decl_layout_ok,
+   decl_self_ok) are discharged from Laid / classA_ok. *)
 Definition C06_refs_local_full : Prop := forall P w f name line col v o,
   in_fragment P = true -> Laid P -> classA_ok (bind_file P) name = true ->
   resolve_at w f (analyse P) name line col = TLocal v -> s_bind o = BLocal (v_loc v) ->
@@ -209,7 +210,8 @@ Proof. vm_compute. repeat split; reflexivity. Qed.
    Laid alone gives the FIRST look-up of every name (tr_clean1, no further guard); the look-up after cgAssignStat's
    re-pointing is clean for every name none of whose occurrences carries the tags CB3 / CB4 (classA_ok). *)
 From LH Require Import Proofs.TraverseBindLaidLoops Proofs.TraverseBindLaidMain Proofs.TraverseBindClean1
-  Proofs.TraverseBindLaid1Main Proofs.TraverseBindB4 Proofs.TraverseBindLaid.
+  Proofs.TraverseBindLaid1Main Proofs.TraverseBindB4 Proofs.TraverseBindLaid Proofs.TraverseBindSpecLaid
+  Proofs.TraverseBindFinal.
 
 (* IsCorrectPosition's Loc test agrees with program order on every Laid chunk of the fragment (first look-ups) *)
 Theorem C06_laid_first_lookups_clean : forall W P n,
@@ -240,15 +242,21 @@ Theorem C06_traversal_is_binder_laid : forall P W,
 Proof. exact traverse_bind_core_classA. Qed.
 Print Assumptions C06_traversal_is_binder_laid.
 
+(* the layout guard on the declaration follows from Laid too: a binding Loc determines the name, no use lies inside it *)
+Theorem C06_laid_decl_layout : forall W P o d,
+  tb_shape P = true -> laid_b W P = true -> In o (bind_file P) -> s_bind o = BLocal d ->
+  decl_layout_ok (bind_file P) (s_name o) d = true.
+Proof. exact laid_decl_layout. Qed.
+Print Assumptions C06_laid_decl_layout.
+
 Theorem C06_refs_local_laid_partial : forall P W w f name line col v o,
   in_fragment P = true -> tb_shape P = true -> laid_b W P = true ->
   classA_ok (bind_file P) name = true ->
-  decl_layout_ok (bind_file P) name (v_loc v) = true ->
   resolve_at w f (analyse P) name line col = TLocal v ->
-  In o (bind_file P) -> s_bind o = BLocal (v_loc v) ->
+  In o (bind_file P) -> s_name o = name -> s_bind o = BLocal (v_loc v) ->
   exists l, references_at MRefs w f (analyse P) name line col = Some l /\
             forall x, In x l <-> In x (spec_refs [(f, bind_file P)] f o).
-Proof. exact (refs_local_same_var_classA MRefs). Qed.
+Proof. exact (refs_local_final MRefs). Qed.
 Print Assumptions C06_refs_local_laid_partial.
 
 Example C06_laid_guards_nonvacuous :
